@@ -673,6 +673,12 @@ pub fn c10_judge(c: &C10Case, obs: &mut Obs) -> Result<(), String> {
             let differs = c.v.get(i) != fr[0].value;
             obs.label_if(6, differs);
             if t <= tm.delay {
+                if fr.len() > 1 && fr[1].pos == 0.0 {
+                    // a second keyframe at 0 % defines the property as well: which one "the 0 %
+                    // value" is, is ambiguous (repeated position) - not asserted
+                    obs.skipped += 1;
+                    continue;
+                }
                 // exactly v
                 if y.get(i) != c.v.get(i) {
                     return Err(format!("prop {} at t={t:?} <= delay {:?}: got {}, expected exactly the substituted start value {}", PROP_NAMES[i], tm.delay, y.get(i), c.v.get(i)));
